@@ -548,3 +548,69 @@ def sibling_offsets_running(ctx: Ctx) -> None:
                 ctx.bad(R, f, cuts[0], f'`{norm(cuts[0])}` turns nodes into leaves (their length becomes the number of their labels) but ' +
                         ('cached lengths are not reset' if not resets else 'the offsets of their siblings are not recomputed') + ': lookups on the derived index are shifted', key=key)
     ctx.require(n >= 5, 'sites that place IndexLevel nodes under a parent')
+
+
+def offset_open_slice_bounded(ctx: Ctx) -> None:
+    R = 'I.offset-open-slice-bounded'
+    ctx.rule(R, 'contradiction rule: LocMap.loc_to_iloc already states that under an offset (a sub-level of a hierarchy) the null slice "is not sufficiently specific" and '
+             'returns explicit bounds relative to the offset; the same holds for a half-open slice. On every path of the slice branch on which the offset applies and the '
+             'step is ascending, each bound of the returned slice is either known not to be None or has been replaced by an expression over the offset; a None bound '
+             'there runs to the edge of the whole index', floor=2)
+    from sfa.symenv import SymEnv
+    prog = ctx.prog
+    k = prog.cls('LocMap')
+    f = k.methods.get('loc_to_iloc')
+    ctx.require(f is not None and 'offset' in f.params, 'LocMap.loc_to_iloc(offset=)')
+    rets = [r for r in walk_local(f.node) if isinstance(r, ast.Return) and isinstance(r.value, ast.Call) and call_name(r.value) == 'slice']
+    ctx.require(len(rets) >= 2, 'slice returns of LocMap.loc_to_iloc')
+    ids = {id(r.value) for r in rets}
+    se = SymEnv(f.node, watch=lambda x: id(x) in ids, max_worlds=512, keep_fact=lambda t: True).run()
+    n = 0
+    for r in rets:
+        c = r.value
+        worlds = se.at(c)
+        key = f'LocMap.loc_to_iloc:{norm(c)[:40]}'
+        n += 1
+        bad = None
+        for w in sorted(worlds):
+            facts = se.facts(w)
+            # the offset does not apply in this world
+            off = [v for t, v in facts.items() if t in ('offset_apply', 'offset is not None', 'not offset is None')]
+            off += [not v for t, v in facts.items() if t == 'offset is None']
+            if off and not any(off):
+                continue
+            # a descending step is excluded by a test on the step
+            if any(v is False for t, v in facts.items() if ' > 0' in t or 'step is None' in t) and not any(v is True for t, v in facts.items() if ' > 0' in t or 'step is None' in t):
+                continue
+            if any(isinstance(a, ast.Starred) for a in c.args) or len(c.args) < 2:
+                bad = (w, 'the bounds are passed on as they come (`slice(*...)`): an open end stays None')
+                break
+            def explicit(e: ast.expr) -> bool:
+                t = norm(e)
+                # an expression over the offset that is not just the mapper's own result (which is None for an open end)
+                if 'offset' in t and 'map_slice_args' not in t:
+                    return True
+                if facts.get(f'{t} is None') is False or facts.get(f'{t} is not None') is True:
+                    return True
+                # `<repl> if X is None else X` / `X if X is not None else <repl>`
+                if isinstance(e, ast.IfExp) and isinstance(e.test, ast.Compare) and len(e.test.ops) == 1 and isinstance(e.test.comparators[0], ast.Constant) \
+                        and e.test.comparators[0].value is None:
+                    x = norm(e.test.left)
+                    if isinstance(e.test.ops[0], ast.Is):
+                        return norm(e.orelse) == x and explicit(e.body)
+                    if isinstance(e.test.ops[0], ast.IsNot):
+                        return norm(e.body) == x and explicit(e.orelse)
+                return False
+            for a in c.args[:2]:
+                t = se.text(a, w)
+                if explicit(se.subst(a, dict(w[0]))):
+                    continue
+                bad = (w, f'bound `{norm(a)}` = `{t[:60]}` may be None under the offset')
+                break
+            if bad:
+                break
+        if bad:
+            ctx.bad(R, f, r, f'`{norm(r)[:60]}`: {bad[1]} — with an offset the slice then runs to the edge of the whole index, not of this sub-level', key=key)
+        else:
+            ctx.ok(R, f, r, f'{len(worlds)} path(s): every bound is explicit under the offset', key=key)
+    ctx.require(n >= 2, 'slice returns')
